@@ -2,8 +2,9 @@
 # usage: tools/try_seed.sh <seed-id> <check...>  : apply the seeded patch to /repo, run the checks, undo it straight afterwards
 ID=$1; shift
 git -C /repo apply /verif/seeded/$ID/patch.diff || { echo "patch does not apply"; exit 9; }
+rm -rf /tmp/evidence_keep && cp -r /verif/evidence /tmp/evidence_keep   # evidence written against a mutated tree must never be committed
 for c in "$@"; do
   out=$(cd /verif && bin/check $c 2>&1); code=$?
   echo "== $ID vs $c: exit=$code"; echo "$out" | grep -E "VIOLATION|obligation:|ENGINE-ERROR|UNDECIDED|KNOWN" | cut -c1-330 | head -8
 done
-git -C /repo checkout -- . ; git -C /repo status --short | head -3
+git -C /repo checkout -- . ; rm -rf /verif/evidence && mv /tmp/evidence_keep /verif/evidence ; git -C /repo status --short | head -3
